@@ -178,9 +178,17 @@ def snapshot(w, s):
         pending = sim.eventlist().size()
     except Exception:  # noqa
         pending = None
+    # everything simple the simulator object remembers (flags, bounds,
+    # counters): part of the search state of C04a, so that two command
+    # histories are merged only when the real object agrees as well
+    import enum
+    attrs = []
+    for k, v in sorted(vars(sim).items()):
+        if v is None or isinstance(v, (bool, int, float, str, enum.Enum)):
+            attrs.append((k, repr(v)))
     return dict(run=sim.run_state.name, rep=sim.replication_state.name,
                 clock=float(sim.simulator_time), trace=list(w.model.trace),
-                live_threads=live, pending=pending)
+                live_threads=live, pending=pending, attrs=tuple(attrs))
 
 
 def command(w, s, cmd, arm=None):
